@@ -20,16 +20,6 @@ theorem unmerge_exact (env : Env) (pre : Fs) (es : List Entry) (s : St) (hd : Di
 
 /-! non-vacuity: a file and a symlink to a directory are unlinked, two nested empty directories go, a directory
 with a foreign file and a protected-looking one stay, the link's target is untouched -/
-def exPre : Fs :=
-  ⟨[([], 1, ⟨.dir, 0o755, 0, 0, 0⟩), (["opt"], 2, ⟨.dir, 0o755, 0, 0, 0⟩), (["a", "opt"], 3, ⟨.dir, 0o755, 0, 0, 0⟩),
-    (["f", "a", "opt"], 4, ⟨.file "78", 0o644, 0, 0, 5⟩), (["t"], 5, ⟨.dir, 0o755, 0, 0, 0⟩),
-    (["keep", "t"], 6, ⟨.file "6b", 0o644, 0, 0, 5⟩), (["l"], 7, ⟨.sym "t", 0o777, 0, 0, 5⟩),
-    (["usr"], 8, ⟨.dir, 0o755, 0, 0, 0⟩), (["x", "usr"], 9, ⟨.file "79", 0o644, 0, 0, 5⟩)], 10⟩
-def exEs : List Entry :=
-  [⟨["opt"], .dir, 0o755, 0, 0, 7⟩, ⟨["l"], .sym "t", 0o777, 0, 0, 7⟩, ⟨["f", "a", "opt"], .reg "78" none, 0o644, 0, 0, 7⟩,
-   ⟨["a", "opt"], .dir, 0o755, 0, 0, 7⟩, ⟨["usr"], .dir, 0o755, 0, 0, 7⟩, ⟨["gone"], .fifo, 0o644, 0, 0, 7⟩]
-def exEnv : Env := ⟨0o022, 0, 0⟩
-
 example : (unmergeContents exEnv exEs exPre).2.isOk = true ∧ DistinctLocs exEs ∧
     (keys (unmergeContents exEnv exEs exPre).1.fs) = [[], ["t"], ["keep", "t"], ["usr"], ["x", "usr"]] := by decide
 
@@ -114,10 +104,6 @@ theorem replace_keeps_new (env : Env) (pre : Fs) (old new : List Entry) (s : St)
     simp only at h
     have hnd : DistinctLocs (removePlan s1.fs old new) := List.Nodup.sublist (plan_sublist_remove s1.fs old new) hd
     exact ⟨s1, rfl, replaced_of_unmerged (unmergeFrom_ok hnd h).spec⟩
-
-def exNew : List Entry :=
-  [⟨["opt"], .dir, 0o755, 0, 0, 9⟩, ⟨["f", "a", "opt"], .reg "6e6577" none, 0o644, 0, 0, 9⟩, ⟨["a", "opt"], .dir, 0o755, 0, 0, 9⟩,
-   ⟨["n", "opt"], .reg "6e" none, 0o644, 0, 0, 9⟩]
 
 example : (engineReplace exEnv exEs exNew exPre).2.isOk = true ∧
     ((engineReplace exEnv exEs exNew exPre).1.fs.view ["f", "a", "opt"]).map (·.2.kind) = some (.file "6e6577") ∧
